@@ -67,6 +67,17 @@ def _build(cfg):
                 raise AssertionError("out-of-bounds window accepted")
             except ValueError:
                 pass
+        if cfg.get("twin_after") == i:
+            # ... and neither must the refused add() of a SECOND interface carrying this subordinate's memory map
+            # (the window is "already added"): the first interface stays the routed one
+            tw = wishbone.Interface(addr_width=s["aw"], data_width=s["dw"], granularity=s["gran"], features=fe(s["feat"]),
+                                    path=(f"twin{i}",))
+            tw.memory_map = bus.memory_map
+            try:
+                dec.add(tw, sparse=s["sparse"])
+                raise AssertionError("the same window accepted twice")
+            except ValueError:
+                pass
     if cfg.get("shared_map") and subs:
         # the memory map of the first subordinate is ALSO the window of a subordinate of a second, unrelated decoder
         # (the two ports of a dual-ported memory behind an instruction-side and a data-side decoder)
@@ -96,6 +107,7 @@ def configs(tier, seed):
         cfg = {"aw": aw, "dw": dw, "gran": gran, "feat": feat, "align": rnd.choice([0, 0, 0, 1, 2, 3]), "subs": [],
                "staged": rnd.choice([None, None, 1, 2]), "enum": rnd.random() < 0.4,
                "refuse_after": rnd.choice([None, None, 0, 1]), "shared_map": tries % 5 == 2,
+               "twin_after": (tries // 3) % 3 if tries % 3 == 1 else None,
                "names": {3: "same", 5: "none"}.get(tries % 7)}
         for i in range(rnd.randint(0 if rnd.random() < 0.05 else 1, 3 if tier == "quick" else 4)):
             sparse = rnd.random() < 0.35
